@@ -118,6 +118,21 @@ Theorem C10_midsend_refuted :
 Proof. exact midsend_refuted. Qed.
 Print Assumptions C10_midsend_refuted.
 
+(* REFUTED instant (finding F28): workers (re)spawned by a submit after the manager thread went back to
+   wait().  submit() wakes the manager up and only then spawns the missing workers; the manager handles the
+   wake-up and blocks again on the sentinels of the processes that existed at that moment.  A death of a new
+   worker is then not noticed until another event arrives (a result, a submit, another worker's idle time-out:
+   300 s by default).  [manager_wake_watch w] is the manager with the sentinel list w captured on entering wait;
+   the model's [manager_wake] is the instance w = procs e. *)
+Theorem C10_stale_watch_refuted :
+  let e := run (new_exec 2 5 0) stale_trace in
+  reachable e /\ sees_only_sentinel e /\ futs e 1 = FRunning /\
+  manager_wake_watch [] e = e /\ broken (manager_wake e) = Some TerminatedWorkerError.
+Proof. exact stale_watch_refuted. Qed.
+
+Theorem C10_watch_current_is_model : forall e, manager_wake_watch (procs e) e = manager_wake e.
+Proof. exact manager_wake_watch_current. Qed.
+
 (* A worker that dies while the manager thread is NOT in wait() (busy un-pickling another result, running
    callbacks, feeding the call queue) is seen at the next wait: the sentinel test is level-triggered over all
    of _processes.  Together with C10_fail_all this covers "deaths accumulate while the manager is busy". *)
